@@ -267,6 +267,9 @@ func (w *World) Run(until time.Duration, maxSteps int, invariant func() error) R
 		}
 		var runnable []*Task
 		for _, t := range s.tasks {
+			if t.Proc != nil && t.Proc.StalledUntil > s.now {
+				continue // the whole process is stopped (SIGSTOP / long pause): none of its tasks runs
+			}
 			switch t.state {
 			case tsRunnable:
 				runnable = append(runnable, t)
